@@ -269,6 +269,24 @@ def run_obligations(rep, group, obs, timeout, replay=None, family=None, lw=None,
             rep.not_reproduced.append({"id": o.id, "why": "no numeric witness found for the solver's sat answer"})
             continue
         if replay is None:
+            # an obligation without variables is a statement about numbers the real code produced in this very run: the
+            # solver's `sat` is then an arithmetic fact about the real output, re-evaluated here on floats
+            roots_ = o.roots() + [s_ for a_ in o.assume for s_ in bool_syms(a_)]
+            if not [v_ for v_ in variables(roots_) if v_.args[0] not in ("PI", "LN10", "LN2")]:
+                try:
+                    val_ = evalf(roots_, {})
+                    if o.cond is not None:
+                        bad_, what_ = bool(evalb(o.cond, val_)), "ground clause violated by the real output: %s" % o.id
+                    else:
+                        l_, r_ = val_[o.lhs.nid], val_[o.rhs.nid]
+                        bad_, what_ = differs(l_, r_, 1e-9), "real output gives %.12g, required %.12g (%s)" % (l_, r_, o.id)
+                except Exception as e_:
+                    bad_, what_ = None, "ground re-evaluation failed: %r" % (e_,)
+                if bad_:
+                    rep.violation(fam, what_, {"group": group, "ob": o.id, "meta": _js(o.meta), "env": {}, "what": what_, "ground": True})
+                else:
+                    rep.not_reproduced.append({"id": o.id, "why": what_})
+                continue
             rep.not_reproduced.append({"id": o.id, "why": "no replay available"})
             continue
         try:
